@@ -15,7 +15,7 @@ PLAN = {
                 gen_q=("single,plain,err,flowretry,zerobudget", 130), gen_t=("single,plain,err,flowretry,zerobudget", 3500)),
     "C03": dict(mc_q=[("flow2", 1, 4), ("rerun", 1, 4), ("flow2empty", 1, 3), ("dynwire", 1, 4), ("emptyconn", 1, 4), ("selfnest", 1, 4)],
                 mc_t=[("flow2", 1, 6), ("rerun", 1, 5), ("flow2empty", 1, 5), ("nest", 1, 3), ("dynwire", 1, 5), ("emptyconn", 1, 6), ("selfnest", 1, 5)],
-                gen_q=("plain,nest,dynwire,zs,recur,longloop,hugeloop,longchain", 130), gen_t=("plain,nest,err,dynwire,zs,recur,longloop,hugeloop,longchain", 2600)),
+                gen_q=("plain,nest,dynwire,zs,sh,recur,wide,longloop,hugeloop,longchain", 130), gen_t=("plain,nest,err,dynwire,zs,sh,recur,wide,longloop,hugeloop,longchain", 2600)),
     "C04": dict(mc_q=[("flowerr", 2, 3), ("nesterr", 2, 3), ("nilstart", 1, 3), ("flowbatch", 2, 4)],
                 mc_t=[("flowerr", 2, 5), ("nesterr", 2, 4), ("nilstart", 1, 4), ("single", 4, 4), ("flowbatch", 2, 5)],
                 gen_q=("faultenum,err,hugeloop", 60), gen_t=("faultenum,err,nilstart,hugeloop", 800)),
@@ -34,7 +34,7 @@ PLAN = {
                 gen_q=("single,plain", 200), gen_t=("single,plain,err", 4000)),
     "C18": dict(mc_q=[("single", 2, 4), ("flow2empty", 1, 4), ("flowbatch", 2, 4), ("nestsmall", 1, 3), ("singlecancel", 2, 4)],
                 mc_t=[("single", 3, 4), ("flow2empty", 1, 6), ("nest", 1, 4), ("singlecancel", 3, 4), ("flowcancel", 2, 4), ("flowbatch", 2, 5)],
-                gen_q=("single,plain,nest,cancel,panic,zerobudget", 100), gen_t=("single,plain,nest,cancel,cancelenum,panic,zerobudget", 2000)),
+                gen_q=("single,plain,nest,sh,cancel,panic,zerobudget", 100), gen_t=("single,plain,nest,sh,cancel,cancelenum,panic,zerobudget", 2000)),
 }
 
 
